@@ -5,6 +5,7 @@ import Mdsort.Proofs.WorldStdinExample
 import Mdsort.Proofs.EvalErrProp
 import Mdsort.Proofs.EvalAtt
 import Mdsort.Proofs.ExecStatus
+import Mdsort.Proofs.EvalPFail
 
 /-!
 # C04 - the exit status tells the truth (MDA contract, error isolation)
@@ -91,7 +92,7 @@ example :
         { files := [([47, 109, 47, 110, 101, 119], [49], [83, 117, 98, 106, 101, 99, 116, 58, 32, 120, 10, 10, 98, 10])],
           error := false, reject := false, log := [] }) 0 []).2.map (·.1)) =
       [.openRd 3 [49], .read 7, .unlinkat 3 [49], .close 7] := by
-  simp only [processMessage, eval]
+  simp only [processMessage, evalP, evalTop, evalT, eval]
   decide +kernel
 
 /-- **Error isolation.**  In a walk, when `readdir` returns the name `n` (not `.` or `..`), the run is
@@ -138,8 +139,11 @@ issued, and the index of the next call (`Proofs.Own.runOracle_eq`). -/
 /-- **One message.**  After processing a message the flag is the flag before or-ed with the
 message's own error bit `Proofs.msgError` (Proofs/WorldFrameErr.lean): the file is unknown to the
 model, `message_parse` failed (open/read failure, over-long path or name, invalid flag suffix), the
-rules' verdict is an evaluation error or an interpolation failure, or - not in a dry run - the action
-list reported an error. -/
+rules' verdict IN THIS RUN is an evaluation error or an interpolation failure, or - not in a dry run - the action
+list reported an error.  Evaluation is part of the run (`Model.evalP`): the verdict is `Proofs.evVerdict` of the value
+`evalP` returns on the results `orcl` gives to its calls, so the evaluation errors include the conditions the operating
+system could not answer - `C04_evaluation_failure_is_error`, `C04_command_failure_causes`, `C04_date_stat_failure`,
+`C04_message_error_of_eval_error` below. -/
 theorem C04_message_error_iff (env : PEnv) (orc : EvalOracles) (expr : Expr) (md : Maildir) (name : Bytes) (st : MainSt)
     (orcl : Nat → Call → Res) (i : Nat) (tr : List (Call × Res)) :
     (runOracle orcl (processMessage env orc expr md name st) i tr).1.1.error =
@@ -247,7 +251,7 @@ example : ∀ q, ((runPlan Plan.none (mainP Proofs.StdinExample.env0 Proofs.Stdi
   C04_stdin_spool_removed _ _ _ _ _ _ _ _ rfl rfl Proofs.StdinExample.ex_stdinExprs Proofs.StdinExample.ex_stdinIs
     Proofs.StdinExample.ex_fresh (fun _ _ => rfl)
 
-/-- Exit status 0 means stored (= `C02_stdin_exit0`). -/
+/-- Exit status 0 means stored (= `C02_stdin_exit0`; see there and `C02_stdin_exit0_stored`). -/
 theorem C04_stdin_zero_means_stored (env : PEnv) (orc : EvalOracles) (conf : List ConfBlock) (files : Files) (input : Bytes)
     (expr : Expr) (w : World) (plan : Plan) (hm : env.stdinMode = true) (hs : env.syntaxOnly = false)
     (hc : Proofs.World.stdinExprs conf = [expr]) (hin : Proofs.World.StdinIs w input)
@@ -631,8 +635,8 @@ example (st : ExecSt) :
 /-- **A `command` condition that cannot be run is an error, not "no match".**  When /dev/null cannot be opened, `fork` or
 `waitpid` fails, or the child exits with 127 (its `execvp` failed), the condition evaluates to ERROR - the verdict
 `C04_message_error_iff` turns into the error flag of the run - and the match list is untouched.  (Hypothesis `hrc`: the
-environment's command oracle is `exec()`, see `C13_status`; in `Model.processMessage` the oracle is still the constant -1,
-DESIGN 9.4.) -/
+environment's command oracle is `exec()`, see `C13_status`; inside the run of `Model.processMessage` the condition issues the
+calls itself and the oracle IS `exec()` on their results: `C04_command_failure_is_error_run` below.) -/
 theorem C04_command_failure_is_error (env : Env) (root : Msg) (lno : Nat) (argv av : List Bytes) (part : Nat) (m : Msg) (st : St)
     (hav : argv.mapM (interpolate st.ml none) = some av)
     (d : Bool) (f w : Res) (hrc : env.command av = Model.execValue d f w)
@@ -699,6 +703,96 @@ theorem C04_command_signal_is_error_false : ¬ C04_command_signal_is_error := by
   rw [Proofs.eval_command] at h1
   revert h1
   decide +kernel
+
+/-! ## Evaluation errors caused by the operating system
+
+`command`, `isdirectory` and the file-time `date` conditions ask the operating system while the rules are evaluated
+(`Model.evalP`, Model/EvalP.lean; `C03_evaluation_calls`).  `Proofs.FailAns tf q a`: the answer `a` to the question `q`
+is a failure - the value of `exec(argv, -1)` is negative (`command`), or `stat` of the message's path failed / `time_format`
+returned NULL (file-time `date`).  `isdirectory` has no failing answer: a path that cannot be stat'ed is not a directory
+(`expr_eval_stat`; the condition is false, nothing is reported). -/
+
+/-- **A question the operating system could not answer makes the evaluation an error, at once** - for every rule tree,
+wherever the condition stands in it (inside `and` / `or` / `!` / nested blocks / `attachment`), whatever the other
+calls return: if in the run of `evalP` the answer to question number `k` is a failure, the value is *error* and no
+further question is asked (`EXPR_ERROR` is passed up through every `expr_eval_*`). -/
+theorem C04_evaluation_failure_is_error (env : Env) (e : Expr) (m : Msg) (fl : MFlags)
+    (orcl : Nat → Call → Res) (i : Nat) (k : Nat) (q : Req) (a : SysAns)
+    (hq : (evalR env e m fl ((evalTop env e m fl).answers orcl i)).2[k]? = some q)
+    (ha : ((evalTop env e m fl).answers orcl i)[k]? = some a) (hF : Proofs.FailAns env.timeFormat q a) :
+    (Proofs.Own.runO orcl (evalP env e m fl) i).1.1 = .error ∧
+    (evalR env e m fl ((evalTop env e m fl).answers orcl i)).2.length = k + 1 :=
+  Proofs.evalP_error_of_fail env e m fl orcl i k q a hq ha hF
+
+/-- Non-vacuity: `match command "t" or all move "/d"` when `fork` fails: one question, a failing answer. -/
+example :
+    let e : Expr := .mtch 1 (.or 1 (.command 1 [[116]]) (.all 1)) (.move 1 [47, 100])
+    let env := Proofs.msgEnv Proofs.examplePEnv Proofs.exampleOracles [47, 109, 47, 110, 101, 119, 47, 49]
+    let m := parseMessage [83, 117, 98, 106, 101, 99, 116, 58, 32, 120, 10, 10, 98, 10]
+    let orcl : Nat → Call → Res := fun _ c => match c with | .fork => .err "EAGAIN" | _ => .ok 0
+    (evalTop env e m MFlags.empty).answers orcl 0 = [.status (-1)] ∧
+    (evalR env e m MFlags.empty [.status (-1)]).2 = [.command [[116]]] ∧
+    Proofs.FailAns env.timeFormat (.command [[116]]) (.status (-1)) ∧
+    (Proofs.Own.runO orcl (evalP env e m MFlags.empty) 0).1.1 = .error := by
+  simp only [evalP, evalR, evalTop, evalT, eval]
+  refine ⟨by decide +kernel, by decide +kernel, ?_, by decide +kernel⟩
+  show ((-1 : Int) < 0)
+  decide
+
+/-- **Which call results make a `command` condition fail**: its answer is the value of util.c `exec(argv, -1)` on the
+results of `open("/dev/null")`, `fork`, `waitpid` (`Model.execValue`), and that value is negative exactly when the child
+could not be run (`Proofs.childOutcome … = .cannotRun`: `/dev/null` cannot be opened, `fork` fails, `waitpid` fails -
+`C13_child_outcome`) or exited with status 127 (`execvp` failed).  Every other status - 0, another exit code, death by
+a signal - is match / no match, not an error (`C13_command_status`). -/
+theorem C04_command_failure_causes (av : List Bytes) (orcl : Nat → Call → Res) (j : Nat) :
+    (Proofs.Own.runO orcl (sysCall (.command av)) j).1 =
+      .status (match orcl j (.openPath (ofString "/dev/null")) with
+        | .ok _ => Model.execValue true (orcl (j + 1) .fork) (orcl (j + 2) .waitpid)
+        | _ => Model.execValue false (orcl (j + 1) .fork) (orcl (j + 2) .waitpid)) ∧
+    ∀ (d : Bool) (f w : Res), Model.execValue d f w < 0 ↔
+      Proofs.childOutcome d f w = .cannotRun ∨ Proofs.childOutcome d f w = .waited (.exited 127) :=
+  ⟨Proofs.sysCall_command_value av orcl j, Proofs.execValue_neg_iff⟩
+
+/-- **`C04_command_failure_is_error` inside the run** (its corollary through `Proofs.evalT_command_run`: the oracle of the
+evaluator-level statement IS `exec()` on the results of the three calls of this run): a `command` condition evaluated at
+step `j` of a run in which `/dev/null` cannot be opened, `fork` or `waitpid` fails, or the child exits with 127, evaluates to
+ERROR and leaves the match list as it was. -/
+theorem C04_command_failure_is_error_run (env : Env) (root : Msg) (lno : Nat) (argv av : List Bytes) (part : Nat) (m : Msg)
+    (st : St) (hav : argv.mapM (interpolate st.ml none) = some av) (orcl : Nat → Call → Res) (j : Nat)
+    (h : let o := Proofs.childOutcome (match orcl j (.openPath (ofString "/dev/null")) with | .ok _ => true | _ => false)
+            (orcl (j + 1) .fork) (orcl (j + 2) .waitpid)
+         o = .cannotRun ∨ o = .waited (.exited 127)) :
+    (Proofs.Own.runO orcl (evalT env root (.command lno argv) part m st).toProg j).1 = (.error, st) := by
+  rw [Proofs.evalT_command_run]
+  exact C04_command_failure_is_error _ root lno argv av part m st hav _ _ _ rfl h
+
+/-- **A failing `stat` of the message's path makes a file-time `date` condition fail**: the answer to the question is
+what `stat` returned, and a `stat` that does not succeed (`EACCES`, `EIO`, `ENOENT`: the message was removed meanwhile)
+is a failing answer. -/
+theorem C04_date_stat_failure (tf : Int → Option Bytes) (p : Bytes) (f : DateField) (orcl : Nat → Call → Res) (j : Nat) :
+    (Proofs.Own.runO orcl (sysCall (.fileTime p f)) j).1 = .stat (statAnswer (orcl j (.stat p))) ∧
+    ((∀ v, orcl j (.stat p) ≠ .ok v) → Proofs.FailAns tf (.fileTime p f) (.stat (statAnswer (orcl j (.stat p))))) :=
+  ⟨Proofs.sysCall_fileTime_value p f orcl j, Proofs.failAns_fileTime_of_stat_failed tf p f _⟩
+
+example : (∀ v, (Res.err "EACCES") ≠ .ok v) := fun _ h => by cases h
+
+/-- **... and an evaluation error is an error of that message** (`C04_message_error_iff`): if the message was parsed and
+the evaluation of the rules in this run says *error*, the message's error bit is set. -/
+theorem C04_message_error_of_eval_error (env : PEnv) (orc : EvalOracles) (expr : Expr) (md : Maildir) (name : Bytes)
+    (st : MainSt) (orcl : Nat → Call → Res) (i : Nat) (d : Handle) (content : Bytes) (ms : MsgSt)
+    (hd : md.dirH = some d) (hf : st.files.get md.path name = some content)
+    (hparse : (Proofs.Own.runO orcl (messageParseP d md.path name content) i).1 = some ms)
+    (hev : (Proofs.Own.runO orcl (Proofs.evalMs env orc expr ms)
+      (Proofs.Own.runO orcl (messageParseP d md.path name content) i).2.2).1.1 = .error) :
+    Proofs.msgError env orc expr md name st orcl i = true := by
+  unfold Proofs.msgError
+  simp only [hd, hf, hparse]
+  generalize (Proofs.Own.runO orcl (Proofs.evalMs env orc expr ms)
+    (Proofs.Own.runO orcl (messageParseP d md.path name content) i).2.2).1 = ev at hev ⊢
+  obtain ⟨t, est⟩ := ev
+  dsimp only at hev
+  subst hev
+  rfl
 
 /-! ## The command line (package ce13): exit statuses before the configuration is read -/
 
